@@ -4,7 +4,7 @@ SPECIFICATION Spec
 CONSTANTS
   MaxNodes = 3
   MaxDepth = 3
-  Kinds = {"fo","fi","fp","wh","if","el","bl","st","us","br","co","sh","sh2","shs","shn","ex","exa"}
+  Kinds = {"fo","fi","fp","wh","if","el","bl","st","us","br","co","sh","sh2","shs","shn","ex","exa","toi","too","tii","tio","to","ti","tp"}
   GoodH = {"lt","sub"}
   BadH = {"noupd"}
   RetTypes = {"void","int"}
